@@ -67,6 +67,14 @@ def run(ctx):
     for x in sub:
         for r in sub:
             add([x], {}, {'roles': [r]}, next(nest_cycle))
+    # the empty role name (length-0 boundary): `role:` / a placeholder filled with '' equals the role ''
+    for roles in ([''], ['', 'a'], ['a'], [], None):
+        creds = {'user_id': 'u'} if roles is None else {'roles': roles, 'user_id': 'u'}
+        for nest in ('self', 'not', 'and', 'or', 'alias'):
+            add([], {}, creds, nest)
+            add([ev.ph('k')], {'k': ''}, creds, nest)
+            add([ev.ph('k'), ev.ph('j')], {'k': '', 'j': ''}, creds, nest)
+            add([ev.ph('k')], {}, creds, nest)
     n_exh = len(cases)
     # random: role lists, placeholders, missing keys, missing roles
     alph = ALPH_ASCII + ALPH_WIDE
